@@ -11,4 +11,9 @@ TEXT = {
   "level_text": "Exploration: random typed expression trees up to depth 5 (thorough 6) in 11 syntactic positions with random whitespace and redundant parentheses, compared with an independent reference evaluator and with their fully parenthesised spelling, including the order of spy invocations; all typable triples of 12 representative operators in all 5 tree shapes and every operator x whitespace spelling are enumerated exhaustively. Absence of counterexamples beyond the explored trees is not established.",
   "level_note": "Trusted: the reference model harness/rm.go as the executable reading of the operator table; operand domain restricted to what the statement covers (ints within 2^53, exact division, same-typed equality, strings that do not look numeric); unary operators next to binary ones only in the unambiguous arrangements listed in DESIGN.md C08 W.",
  },
+ "C09": {
+  "technique": "property-based testing (rapid program generator) + exhaustive truthiness-table and loop-counter enumeration; oracle = reference interpreter for if/for/set",
+  "level_text": "Exploration: random nested if/elseif/else, for/else and set programs over lists, ranges, strings (multi-byte), one-entry maps, nested lists and empty/undefined sequences compared byte-for-byte with a reference interpreter; the truthiness table x every branching construct, all seven loop counters at every position for lengths 0..14 (lists, strings, ranges), a 9x9x8 grid of range(start,end,step) and outer counters after inner loops are enumerated exhaustively.",
+  "level_note": "Trusted: reference interpreter harness/stmt.go. Not covered: reading loop variables after their loop (no rule), iteration order of maps with more than one entry (C03).",
+ },
 }
